@@ -61,6 +61,8 @@ type pathState struct {
 	steps    int64
 	nvars    int
 	unknowns int
+	uf       map[string]*smt.Term // uninterpreted environment results on this path
+	usedUF   bool
 	// violation found mid-path (assert); path stops at first
 }
 
